@@ -114,6 +114,16 @@ GLOBAL_DOCS = [{"action": "global", "title": "g", "logsource": {"category": "c",
                {"detection": {"sel_own": {"f5": "e"}, "condition": "1 of sel_* and not 1 of flt_*"}},
                {"action": "repeat", "detection": {"sel_gamma": {"f6": "f"}, "sel_delta": {"f7": "g"}, "condition": "all of them"}}]
 rec("collection_global_repeat", lambda: conv(None, GLOBAL_DOCS))
+FILTER_UNDEF3 = [rule({"sel": {"f1": "a"}}, "sel"),
+                 {"title": "f3", "logsource": {"category": "c"}, "filter": {"rules": "any", "flt": {"user": "x"}, "condition": "not flt and not (zeta or alpha or beta)"}}]
+rec("error_filter_three_undefined_names", lambda: conv(None, FILTER_UNDEF3))
+rec("error_filter_three_undefined_names_load", lambda: [[type(e).__name__ + ":" + str(e) for e in SigmaCollection.from_dicts(FILTER_UNDEF3, collect_errors=True).errors]])
+# a rule condition naming an undefined detection, reported after a pipeline / a filter has added their own (randomly named) detections
+UNDEF_RULES = [rule({"sel": {"f1": "a"}, "zeta": {"f2": "b"}}, "sel and nosuch"), rule({"sel": {"f1": "a"}}, ["sel", "sel or nosuch2"])]
+rec("error_undefined_detection_after_add_condition", lambda: conv(P_COND, UNDEF_RULES))
+rec("error_undefined_detection_after_add_condition_raised", lambda: conv(P_COND, UNDEF_RULES, collect=False))
+rec("error_undefined_detection_after_filter", lambda: conv(None, UNDEF_RULES + FILTERS[1:2] + FILTERS_THEM[1:]))
+rec("error_undefined_detection_after_filter_and_add_condition", lambda: conv(P_COND, UNDEF_RULES + FILTERS[1:2], collect=False))
 P_HASH = {"name": "h", "priority": 1, "transformations": [{"id": "h", "type": "hashes_fields", "valid_hash_algos": ["SHA256", "MD5", "SHA1", "IMPHASH"], "field_prefix": "File"}]}
 rec("error_hashes_unknown_algorithm", lambda: conv(P_HASH, [rule({"sel": {"Hashes|contains": "CRC32=abcdef01"}}), rule({"sel": {"Hashes|contains": ["MD5=0123456789abcdef0123456789abcdef", "IMPHASH=0123456789abcdef0123456789abcdef"]}})]))
 FILTER_PATTERN_UNDEF = [rule({"sel": {"f1": "a"}}, "sel"),
